@@ -65,13 +65,13 @@ def run(tier, seed):
     cdir = os.path.join(common.VERIF, "corpus", PID)
     cases = [json.load(open(os.path.join(cdir, f))) for f in sorted(os.listdir(cdir)) if f.endswith(".json")]
     import matrixcases
-    cases += matrixcases.midprove_cases(BN)
-    n += len(matrixcases.midprove_cases(BN))
+    cases += matrixcases.midprove_cases(BN) + matrixcases.cancellation_cases(BN)
+    n += len(matrixcases.midprove_cases(BN)) + len(matrixcases.cancellation_cases(BN))
     gen = progs.Gen(rnd, PROFILE)
     while len(cases) < n:
         c = gen.case()
         if rnd.random() < 0.4:          # witness values: negative, at/above the prime, wider than 256 bits
-            c["ins"] = [c["ins"][0]] + [rnd.choice([-1, -5, BN, BN + 3, 2 ** 256 + 7, 2 ** 300, -2 ** 260, 3, BN - 1]) for _ in c["ins"][1:]]
+            c["ins"] = [c["ins"][0]] + [rnd.choice([-1, -5, BN, BN + 3, 2 ** 256 + 7, 2 ** 300, -2 ** 260, 3, BN - 1, -BN, -2 * BN, 2 * BN, -BN - 1]) for _ in c["ins"][1:]]
             c["cfg"]["ign"] = 1
         cases.append(c)
     for i, c in enumerate(cases): c.update(id=i, prove=(2 if (i % 2 or "prove_at" in c) else 1), full=1)
